@@ -58,8 +58,19 @@ def h1(cx):
             ok, why = False, f"copy returns `{short(r_.value, 60)}`, which is not a new hybrid object dressing a new struct"
             continue
         xo = res(v.keywords[0].value)
+        kws = {}
+        if isinstance(xo, ast.Call):
+            for k in xo.keywords:
+                if k.arg is not None:
+                    kws[k.arg] = norm(k.value)
+                else:  # **mapping: a dict literal bound to a local
+                    dd = res(k.value)
+                    if isinstance(dd, ast.Dict) and all(isinstance(q, ast.Constant) for q in dd.keys):
+                        kws.update({q.value: norm(w) for q, w in zip(dd.keys, dd.values)})
+                    else:
+                        kws["**"] = norm(k.value)
         good = (isinstance(xo, ast.Call) and norm(xo.func) in ("self._XoStruct", "self._xobject.__class__") and len(xo.args) == 1 and norm(xo.args[0]) == "self._xobject"
-                and {k.arg: norm(k.value) for k in xo.keywords} == {"_context": "_context", "_buffer": "_buffer", "_offset": "_offset"})
+                and kws == {"_context": "_context", "_buffer": "_buffer", "_offset": "_offset"})
         if not good:
             ok, why = False, f"the struct handed to the new object is `{short(xo, 80)}`, not a copy-construction of self._xobject at the requested placement"
     cx.check(ok, cp, construct="copy: new struct copy-constructed from self._xobject, dressed by a new hybrid object", detail="copy never returns or re-dresses the original storage", bad_detail=why or "copy does not build a fresh copy-constructed struct", sub="copy")
@@ -389,15 +400,18 @@ def h4(cx):
     for c in [x for x in own_nodes(f) if isinstance(x, ast.Call) and call_name(x) == "get" and norm(x.func.value) == "defaults"]:
         n += 1
         k = _ns(c.args[0], env)
+        cx.recog(k is not None, c, f"to_dict: name space of `{short(c.args[0])}`")
         cx.check(k == kspace, c, construct=f"to_dict: defaults keyed by {kspace}-names, read with {short(c.args[0])} : {k}", detail="defaults are looked up in the key space they were stored in",
                  bad_detail=f"defaults is keyed by struct field names but read with a python-side name: for a renamed field the lookup yields None, so a value equal to its default is never omitted")
     for c in [x for x in own_nodes(f) if isinstance(x, ast.Call) and call_name(x) == "getattr" and norm(x.args[0]) == "obj" and len(x.args) == 2]:
         n += 1
         k = _ns(c.args[1], env)
+        cx.recog(k is not None, c, f"to_dict: name space of `{short(c.args[1])}`")
         cx.check(k == "py", c, construct=f"to_dict: getattr(obj, {norm(c.args[1])}) : {k}", detail="hybrid attributes are addressed by python names", bad_detail="hybrid attribute read with a struct-side name")
     for s in [x for x in own_nodes(f) if isinstance(x, ast.Assign) and isinstance(x.targets[0], ast.Subscript) and norm(x.targets[0].value) == "out"]:
         n += 1
         k = _ns(s.targets[0].slice, env)
+        cx.recog(k is not None, s, f"to_dict: name space of `{short(s.targets[0].slice)}`")
         cx.check(k == "py", s, construct=f"to_dict: out[{norm(s.targets[0].slice)}] : {k}", detail="dictionary keys are python names (what the constructor accepts back)", bad_detail="dictionary key is not the python-side field name")
     # ---- _reinit_from_xobject
     f = m.func(f"{HC}._reinit_from_xobject")
@@ -412,6 +426,8 @@ def h4(cx):
         tgt, key = norm(c.args[0]), c.args[1]
         k = _ns(key, env)
         n += 1
+        if tgt in ("_xobject", "self"):
+            cx.recog(k is not None, c, f"_reinit_from_xobject: name space of `{short(key)}`")
         if tgt == "_xobject":
             cx.check(k == "xo", c, construct=f"_reinit: {call_name(c)}(_xobject, {norm(key)}) : {k}", detail="struct fields are addressed by struct names", bad_detail="struct field addressed with a python-side name")
         elif tgt == "self":
@@ -426,12 +442,38 @@ def h4(cx):
     s = sets[0]
     d = Defs(mh)
     fl = Flow(mh)
-    pyn, xon = norm(s.args[1]), norm(s.args[2].args[0])
-    pdefs = {norm(v) for v, _ in d.defs_of(pyn) if v is not None}
-    xdefs = {norm(v) for v, _ in d.defs_of(xon) if v is not None}
-    ok = pdefs == {f"rename[{xon}]", xon} and xdefs == {"ff.name"}
+    env = {"ff.name": "xo"}
+    for l in [x for x in own_nodes(mh) if isinstance(x, ast.For)]:
+        if norm(l.iter).endswith("_XoStruct._fields") and isinstance(l.target, ast.Name):
+            env[l.target.id + ".name"] = "xo"
+    # rename : xo -> py (declared `_rename`), so rename[x] / rename.get(x, x) of an xo name is a py name
+    changed = True
+    while changed:
+        changed = False
+        for name, defs in d.assigns.items():
+            if name in env:
+                continue
+            ts = set()
+            for v, _ in defs:
+                if v is None:
+                    ts.add(None)
+                elif isinstance(v, ast.Subscript) and norm(v.value) == "rename":
+                    ts.add("py" if _ns(v.slice, env) == "xo" else None)
+                elif isinstance(v, ast.Call) and norm(v.func) == "rename.get" and len(v.args) == 2 and norm(v.args[0]) == norm(v.args[1]):
+                    ts.add("py" if _ns(v.args[0], env) == "xo" else None)
+                else:
+                    t = _ns(v, env)
+                    # `pyname = fname` under `fname not in rename`: an xo name that is its own py name
+                    ts.add(t)
+            if ts and None not in ts and ts <= {"py", "xo"}:
+                # a local that is rename[x] on one arm and x itself on the other is the python name of x
+                env[name] = "py" if "py" in ts else "xo"
+                changed = True
+    pyn, xon = s.args[1], s.args[2].args[0]
+    kp, kx = _ns(pyn, env), _ns(xon, env)
+    cx.recog(kp is not None and kx is not None, s, f"MetaHybridClass.__new__: name spaces of `{short(pyn)}` / `{short(xon)}`")
     n += 1
-    cx.check(ok, s, construct=f"setattr(new_class, {pyn} in {sorted(pdefs)}, _FieldOfDressed({xon}, ...))", detail="python attribute name = renamed name, descriptor bound to the struct field name",
+    cx.check(kp == "py" and kx == "xo", s, construct=f"setattr(new_class, {norm(pyn)} : {kp}, _FieldOfDressed({norm(xon)} : {kx}, ...))", detail="python attribute name = renamed name, descriptor bound to the struct field name",
              bad_detail="descriptor is not installed under the renamed python name for the struct field name")
     src = norm(mh)
     ok = "inverse_rename = {v: k for k, v in rename.items()}" in src and "len(rename.keys()) != len(inverse_rename.keys())" in src and "(set(rename.keys()) | set(xofields.keys())) & set(rename.values())" in src
@@ -442,6 +484,7 @@ def h4(cx):
     for s in [x for x in own_nodes(f) if isinstance(x, ast.Assign) and isinstance(x.targets[0], ast.Subscript) and norm(x.targets[0].value) == "xo_kwargs"]:
         n += 1
         k = _ns(s.targets[0].slice, env)
+        cx.recog(k is not None, s, f"xoinitialize: name space of `{short(s.targets[0].slice)}`")
         cx.check(k == "xo", s, construct=f"xoinitialize: xo_kwargs[{norm(s.targets[0].slice)}] : {k}", detail="constructor keywords are translated to struct names", bad_detail="struct constructor receives a python-side (renamed) keyword: the value of a renamed field is dropped and its default used")
     cx.need(n >= 10, f"only {n} name-space typed uses found")
 
